@@ -141,7 +141,14 @@ def gen_seq(rng, meta, nops, shape):
             elif two and k < 0.52:
                 g, g2 = g2, g
                 seq.append("sel %d" % g.idx)
-            elif k < 0.62:
+            elif k < 0.57:
+                seq.append("yline %d %d" % (rng.choice([pick_len(rng, g), pick_len(rng, g), 0, 1, 2, -1, g.size + 1]),
+                                            rng.choice([-1, -1, 1, 1, 2, 3, 0, -2, 7])))
+            elif k < 0.60:
+                ln = rng.choice([pick_len(rng, g), 0, 1, 2, -1, g.size])
+                seq.append("wrline %d %d" % (ln, rng.choice([-1, -1, 1, 1, 2, 0, -2])))
+                g.used = min(g.size, g.used + max(0, ln) // 2)
+            elif k < 0.64:
                 seq.append("replay %d" % rng.choice([pick_len(rng, g), 1, 2, 3, g.size, g.size + 1, 0, -1, -2]))
             elif k < 0.78:
                 n = rng.choice([pick_len(rng, g), 1, 2, 3, -1, -1, 0, -2, g.size])
@@ -427,8 +434,21 @@ def core_ops():
 
 
 def core_ops_lines():
-    """line-level replay side (cbuf_replay_line / cbuf_rewind_line / cbuf_lines_reused)"""
-    return []
+    """line-level replay side: cbuf_replay_line / cbuf_rewind_line with lines = -1 / 0 / 1 / many and
+    lengths around the line lengths (cbuf_lines_reused is a column of every answer)"""
+    ops = []
+    for ln in (-1, 0, 1, 2, 3, 4, 6, 9):
+        for lines in (-2, -1, 0, 1, 2, 3):
+            ops.append(["yline %d %d" % (ln, lines)])
+    for ln in (-1, 0, 1, 2, 3, 9):
+        for lines in (-2, -1, 0, 1, 2):
+            ops.append(["wrline %d %d" % (ln, lines)])
+    # after consuming something, so that there is a history to look at
+    for k in (1, 2, 9):
+        ops += [["read %d" % k, "yline 9 1"], ["read %d" % k, "yline 9 -1"], ["read %d" % k, "yline 2 -1"],
+                ["read %d" % k, "wrline 9 1"], ["read %d" % k, "wrline 9 -1"], ["read %d" % k, "wrline 1 -1"],
+                ["rline 9 1", "yline 9 %d" % k], ["drop %d" % k, "wrline 9 2", "rline 9 -1"]]
+    return ops
 
 
 def wrap_sweep(meta, thin=1):
@@ -455,7 +475,7 @@ def wrap_sweep(meta, thin=1):
                         n += 1
                         if n % thin:
                             continue
-                        out.append(pre + op + ["pline 9 -1", "read 9", "replay 9"])
+                        out.append(pre + op + ["yline 9 -1", "pline 9 -1", "read 9", "replay 9"])
     return out
 
 
@@ -550,6 +570,35 @@ def growth_core(meta):
     return out
 
 
+def grow_states(meta):
+    """cbuf_grow from EVERY index relation of a tiny buffer: every prefix `write a, read b, write c,
+    read d` (a, c up to the minimum size: the second write may wrap, overwrite or grow; b, d up to
+    everything) leaves the three indices, the wrap flag and `used` in every relation they can have
+    -- including empty-and-wrapped, full-and-wrapped, replay region straddling the end --, then a
+    write of each kind that must grow the buffer, then everything is read back and replayed"""
+    out = []
+    for mn, mx in ((2, 9), (3, 40)):
+        for a in range(0, mn + 1):
+            for b in range(0, a + 1):
+                for c in range(0, mn + 1):
+                    for d in range(0, mn + 1):
+                        for mode in (0, 1, 2):
+                            pre = ["create %d %d %d" % (mn, mx, meta), "opt %d" % mode]
+                            if a:
+                                pre.append("write " + pat(a, 1))
+                            if b:
+                                pre.append("read %d" % b)
+                            if c:
+                                pre.append("write " + pat(c, 2))
+                            if d:
+                                pre.append("read %d" % d)
+                            for grow in ("write " + pat(mn + 1, 3), "write " + pat(mn + 4, 4),
+                                         "wfd %d %s 0" % (mn + 2, pat(mn + 2, 5)),
+                                         "wline " + pat(mn + 1, 6).replace("0a", "2e")):
+                                out.append(pre + [grow, "yline 99 -1", "pline 99 -1", "read 99", "replay 99"])
+    return out
+
+
 def prod_fill(meta):
     """the buffer dsh.c creates (64 .. 131072), filled by `cbuf_write_from_fd (.., -1, ..)` through
     every one of its growth steps up to the maximum and beyond (overwrite), then read back"""
@@ -578,6 +627,7 @@ def core_blocks(meta, full):
             ("core:wrap-sweep", wrap_sweep(meta, 1 if full else 5)),
             ("core:pair-sweep", pair_sweep(meta, 1 if full else 3)),
             ("core:growth-steps", growth_core(meta)),
+            ("core:grow-from-every-state", grow_states(meta)),
             ("core:prod-fill", prod_fill(meta))]
 
 
